@@ -1655,8 +1655,8 @@ class Array:
         pipes = [pipes[p] for p in perm_args]
         new_axes = [new_axes[p] for p in perm_args]
 
-        # labels: replace non-set labels with '?#' (*before* transpose
-        labels = [(l if l is not None else '?' + str(i)) for i, l in enumerate(self._labels)]
+        # labels: replace non-set labels of the legs to be combined with '?#' (*before* transpose
+        labels = [('?' + str(i) if l is None and i in all_combine_legs else l) for i, l in enumerate(self._labels)]
         # transpose if necessary
         if transp != tuple(range(self.rank)):
             res = self.copy(deep=False)
